@@ -32,7 +32,7 @@ def _acyclic(n, edges):
     return not any(alive)
 
 
-def order(n, kind, same_names=False):
+def order(n, kind, same_names=False, fix=None):
     """kind: '>' (holder on the left), '<' (holder on the right), '-' , or 'mix' (symbolic per edge)"""
     pairs = [(i, j) for i in range(n) for j in range(n) if i != j]
     perms = list(itertools.permutations(range(n)))
@@ -122,7 +122,7 @@ def order(n, kind, same_names=False):
         return {'tables': n, 'insertion_order': [f't{i}' for i in perms[a['perm']]],
                 'inline_refs': [f"t{i} {kind if kind != 'mix' else ('>', '<', '-')[a[f'k{i}{j}']]} t{j}" for i, j in pairs if a[f'e{i}{j}']]}
 
-    return Harness(body, args, describe=describe, bounds={'n': n, 'kind': kind, 'same_names': same_names})
+    return Harness(body, args, describe=describe, bounds={'n': n, 'kind': kind, 'same_names': same_names}, fixed=fix)
 
 
 def instances(tier):
@@ -131,6 +131,10 @@ def instances(tier):
         for k in ('>', '<', '-'):
             out.append({'name': f'order/n3/{k}', 'factory': 'order', 'params': {'n': 3, 'kind': k}, 'timeout': 280, 'native_limit': 300})
         out.append({'name': 'order/n2/mix', 'factory': 'order', 'params': {'n': 2, 'kind': 'mix'}, 'timeout': 200, 'native_limit': 100})
+        # four tables, edges restricted to the family  t1 -> t0, t2 -> t1, t3 -> t1, t3 -> t2  (a holder with more incoming edges than its target)
+        off = {f'e{i}{j}': False for i in range(4) for j in range(4) if i != j and (i, j) not in ((1, 0), (2, 1), (3, 1), (3, 2))}
+        for k in ('-', '>'):
+            out.append({'name': f'order/n4/{k}/star', 'factory': 'order', 'params': {'n': 4, 'kind': k, 'fix': off}, 'timeout': 280, 'native_limit': 200})
         out.append({'name': 'order/n3/>/same_names', 'factory': 'order', 'params': {'n': 3, 'kind': '>', 'same_names': True}, 'timeout': 280,
                     'native_limit': 300})
     else:
